@@ -1,6 +1,9 @@
 package clover
 
 import (
+	"os"
+	"path/filepath"
+
 	"github.com/ostafen/clover/v2/zzverif/memstore"
 )
 
@@ -20,3 +23,21 @@ func openEnv() *env {
 func sameBlob(a, b []byte) bool { return string(a) == string(b) }
 
 func fbits(f float64) uint64 { return mathFloat64bits(f) }
+
+func tmpPath(name string) string {
+	dir := os.Getenv("VERIF_WORK")
+	if dir == "" {
+		dir = os.TempDir()
+	}
+	return filepath.Join(dir, name)
+}
+
+func writeRawFile(path string, wellFormed bool) {
+	if wellFormed {
+		os.WriteFile(path, []byte("[]"), 0o644)
+	} else {
+		os.WriteFile(path, []byte("{ this is not json"), 0o644)
+	}
+}
+
+func setUnreadable(path string) { os.Remove(path) }
